@@ -589,6 +589,41 @@ def _all_fast(ctx: Ctx, keys):
     ctx.klass("all_fast_definitions", len(keys))
 
 
+def _clients(ctx: Ctx, item):
+    """Two interleaved fast-packet messages (and a third behind them) arriving through the gateway client of the format, the byte stream
+    cut at every byte / inside every packet / between the two marker bytes: the client delivers each message once, complete."""
+    from .. import aio
+    fmt, = item
+    render = {"ebyte": wire.ebyte, "usb": wire.usb, "yd": lambda i, d: (wire.yd(i, d) + "\r\n").encode()}[fmt]
+    msgs = []
+    for k, (src, dest, L, seq) in enumerate(((1, 5, 15, 2), (2, 5, 8, 3), (1, 5, 27, 4))):
+        payload = fp.header(126720, 5 + k) + bytes([0x10 * (k + 1) + j for j in range(L - 2)])
+        msgs.append((wire.ident(126720, src, dest, 3), wire.segment(payload, seq), payload))
+    order = []
+    fa, fb, fc = msgs[0][1], msgs[1][1], msgs[2][1]
+    for i in range(max(len(fa), len(fb))):
+        if i < len(fa):
+            order.append(render(msgs[0][0], fa[i]))
+        if i < len(fb):
+            order.append(render(msgs[1][0], fb[i]))
+    order += [render(msgs[2][0], fr) for fr in fc]
+    stream = b"".join(order)
+    bounds, pos = [], 0
+    for p in order[:-1]:
+        pos += len(p)
+        bounds.append(pos)
+    for name, cuts in (("whole", []), ("every-byte", list(range(1, len(stream)))), ("packet-boundaries", bounds), ("after-first-byte-of-each-packet", [b + 1 for b in [0] + bounds]),
+                       ("mid-packet", [b + 7 for b in [0] + bounds]), ("every-3", list(range(3, len(stream), 3)))):
+        got = aio.client_frames(fmt, stream, cuts=cuts)
+        exp = aio.reference_delivery(fmt, order)
+        ctx.count()
+        ctx.nontrivial_extra += 1
+        if got != exp or len(exp) != 3:
+            ctx.report(f"C04|{fmt}|client|{name}", f"{fmt} client, stream cut '{name}': delivered {len(got)} messages, a decoder fed the packets one by one returns {len(exp)} (3 were sent)",
+                       {"client_cuts": name, "format": fmt})
+    ctx.klass("client_segmentations")
+
+
 def run(ctx: Ctx):
     from .. import canboat as _cb
     fast_keys = [d.key for d in _cb.db().defs if d.supported and d.fast]
@@ -598,7 +633,9 @@ def run(ctx: Ctx):
     fmts = ["ebyte"] if ctx.quick else ["ebyte", "usb", "yd"]
     n = 40 if ctx.quick else 400
     steps = 40 if ctx.quick else 80
-    pmap(ctx, _machine_shard, [(fmts[i % len(fmts)], n, steps) for i in range(16)])
+    # the generated histories go through all three frame-level entry points in both tiers
+    pmap(ctx, _machine_shard, [(("ebyte", "usb", "yd")[i % 3], n, steps) for i in range(16)])
+    pmap(ctx, _clients, [(k,) for k in ("ebyte", "usb", "yd")])
     # bounded exhaustive family
     seqs = stream_sequences(1)
     if ctx.quick:
@@ -622,6 +659,11 @@ def run(ctx: Ctx):
 
 
 def replay(ctx: Ctx, case):
+    if "client_cuts" in case:
+        sub = Ctx(ctx.pid)
+        sub.known_open = {}
+        _clients(sub, (case["format"],))
+        return [(b, v["what"], v["case"]) for b, v in sub.found.items() if v["case"]["client_cuts"] == case["client_cuts"]]
     if "all_fast" in case:
         sub = Ctx(ctx.pid)
         sub.known_open = {}
